@@ -197,6 +197,10 @@ func c04Alphabet() []act {
 		{"T3", func(d uint32, t int) []byte { return tmplMsg(d, t, []absv.Spec{sStr}) }},
 		{"T4", func(d uint32, t int) []byte { return tmplMsg(d, t, []absv.Spec{sU8, sUnk}) }},
 		{"T5", func(d uint32, t int) []byte { return tmplMsg(d, t, []absv.Spec{{ID: 999, Len: 1}, sU8, sU8}) }}, // the same unknown element, another length
+		// the same ids, types and lengths in the same positions, another enterprise number (an element and its RFC 5103 reverse)
+		{"T6", func(d uint32, t int) []byte { return tmplMsg(d, t, []absv.Spec{{ID: 2, Len: 8}, sU8}) }},
+		{"T7", func(d uint32, t int) []byte { return tmplMsg(d, t, []absv.Spec{{ID: 2, Len: 8, Ent: 29305}, sU8}) }},
+		{"Data9", func(d uint32, t int) []byte { return dataMsg(d, t, []byte{0, 0, 0, 0, 0, 0, 1, 44, 6}) }},
 		{"BadLate", func(d uint32, t int) []byte {
 			b := absv.TemplateBody(t, []absv.Spec{sU8, sU16, sU8})
 			return absv.Message(1, 0, d, 2, b[:len(b)-6])
@@ -330,6 +334,19 @@ func runC17(d *drv, r *rand.Rand, thorough bool, custom []*entities.InfoElement)
 				}
 			}
 		}
+	}
+	// wide templates (65..80 fields): unknown elements beyond position 64
+	for i := 0; i < 6; i++ {
+		nf := 65 + r.Intn(16)
+		slots := make([]slot, nf)
+		for j := range slots {
+			if j%9 == 8 || j == nf-1 || j == 64 {
+				slots[j] = kinds[2+r.Intn(3)](r)
+			} else {
+				slots[j] = slot{absv.SpecOf(kFixed), "unsigned16"}
+			}
+		}
+		run(slots, "wide")
 	}
 	// random templates of 1..20 fields with unknown elements at random positions
 	n := 150
